@@ -361,7 +361,87 @@ func runAddr(c Case) res {
 			return fail("PkScript.Address/"+k, "ParsePkScript(%x).Address(%s) = %v, %v; want %s", script, net.R.Name, pa, err, s)
 		}
 	}
+	if typ == tP2PK {
+		if x := pubKeyFormatSeqs(k, payload, net); x.key != "" {
+			return x
+		}
+	}
 	return res{deep: true}
+}
+
+// pubKeyFormatSeqs runs every sequence of <= 3 operations over {observe,
+// SetFormat(compressed), SetFormat(uncompressed)} on a fresh AddressPubKey (a
+// final observation follows each sequence) against the obvious model: the
+// address is (point, format) and everything it reports is a function of the
+// two, whatever was asked of it before.
+func pubKeyFormatSeqs(k string, payload []byte, net netT) res {
+	pt, err := refaddr.ParsePub(payload)
+	if err != nil {
+		return res{}
+	}
+	serOf := func(f address.PubKeyFormat) []byte {
+		if f == address.PKFCompressed {
+			return pt.Compressed()
+		}
+		return pt.Uncompressed()
+	}
+	observe := func(a *address.AddressPubKey, f address.PubKeyFormat, seq string) res {
+		ser := serOf(f)
+		wantEnc := refaddr.CheckEncode(net.R.P2PKH, refaddr.Hash160(ser))
+		if a.Format() != f {
+			return fail("AddressPubKey-format-sequence/"+k, "after %s: Format()=%d want %d", seq, a.Format(), f)
+		}
+		if !bytes.Equal(a.ScriptAddress(), ser) || a.String() != hex.EncodeToString(ser) {
+			return fail("AddressPubKey-format-sequence/"+k, "after %s: ScriptAddress()=%x String()=%s, the key in format %d is %x", seq, a.ScriptAddress(), a.String(), f, ser)
+		}
+		if a.EncodeAddress() != wantEnc || a.AddressPubKeyHash().EncodeAddress() != wantEnc {
+			return fail("AddressPubKey-format-sequence/"+k, "after %s: EncodeAddress()=%s AddressPubKeyHash()=%s want %s", seq, a.EncodeAddress(), a.AddressPubKeyHash().EncodeAddress(), wantEnc)
+		}
+		if sc, err := txscript.PayToAddrScript(a); err != nil || !bytes.Equal(sc, refaddr.ScriptP2PK(ser)) {
+			return fail("AddressPubKey-format-sequence/"+k, "after %s: PayToAddrScript=%x,%v want %x", seq, sc, err, refaddr.ScriptP2PK(ser))
+		}
+		return res{}
+	}
+	ops := []string{"observe", "SetFormat(compressed)", "SetFormat(uncompressed)"}
+	var rec func(prefix []int) res
+	rec = func(prefix []int) res {
+		a, err := address.NewAddressPubKey(payload, net.P)
+		if err != nil {
+			return fail("NewAddress/"+k, "NewAddressPubKey(%x): %v", payload, err)
+		}
+		f := address.PKFUncompressed
+		if len(payload) == 33 {
+			f = address.PKFCompressed
+		}
+		var names []string
+		for _, o := range prefix {
+			names = append(names, ops[o])
+			switch o {
+			case 0:
+				if x := observe(a, f, strings.Join(names[:len(names)-1], ", ")); x.key != "" {
+					return x
+				}
+			case 1:
+				f = address.PKFCompressed
+				a.SetFormat(f)
+			case 2:
+				f = address.PKFUncompressed
+				a.SetFormat(f)
+			}
+		}
+		if x := observe(a, f, strings.Join(names, ", ")); x.key != "" {
+			return x
+		}
+		if len(prefix) < 3 {
+			for o := range ops {
+				if x := rec(append(append([]int{}, prefix...), o)); x.key != "" {
+					return x
+				}
+			}
+		}
+		return res{}
+	}
+	return rec(nil)
 }
 
 // ---- generators -----------------------------------------------------------
